@@ -170,4 +170,13 @@ def allocDict : List (Bytes × BVal) → Nat
   | (k, v) :: r => k.length + allocOf v + allocDict r
 end
 
+/-- `Decoder.Decode` called up to `n` times on one stream: the values read, and what is left when it
+stops (after `n` values or at the first failure) -/
+def decStream : Nat → Bytes → List BVal × Bytes
+  | 0, inp => ([], inp)
+  | n + 1, inp =>
+    match dec (2 * inp.length + 2) inp with
+    | .ok (v, r) => let x := decStream n r; (v :: x.1, x.2)
+    | .error _ => ([], inp)
+
 end Bencode
